@@ -104,6 +104,11 @@ def factories():
                ("posdef given-factor", M.DensePositiveDefiniteMatrix(A, factor=M.TriangularMatrix(L, lower=True)), A),
                ("negdef lazy-factor", M.DenseDefiniteMatrix(-1 * A, is_posdef=False), -1 * A),
                ("negdef given-factor", M.DenseDefiniteMatrix(-1 * A, factor=M.TriangularMatrix(L, lower=True), is_posdef=False), -1 * A)]
+        # an UPPER factor supplied by the caller: the library's convention is array == sign * factor @ factor.T for either orientation
+        U = tri("u", 2, lower=False)
+        Au = U @ U.T
+        out.append(("posdef given upper factor", M.DensePositiveDefiniteMatrix(Au, factor=M.TriangularMatrix(U, lower=False)), Au))
+        out.append(("negdef given upper factor", M.DenseDefiniteMatrix(-1 * Au, factor=M.TriangularMatrix(U, lower=False), is_posdef=False), -1 * Au))
         L3 = tri("l", 3)
         out.append(("posdef n=3", M.DensePositiveDefiniteMatrix(L3 @ L3.T), L3 @ L3.T))
         return out
